@@ -37,10 +37,11 @@ type ConnHistory struct {
 	Client   *ClientHistory
 	Stub     *StubHistory
 
-	SrvCloseSeq   int // backend events recorded before the server closed its endpoint, -1 = it never did
-	SrvLateWrites int // server Write calls after it had closed its endpoint
-	SrvBlocked    int // server writes that found the send window full
-	SrvBlockedTO  int // ... and were ended by the write deadline
+	SrvCloseSeq         int // backend events recorded before the server closed its endpoint, -1 = it never did
+	SrvLateWrites       int // server Write calls after it had closed its endpoint
+	SrvBlocked          int // server writes that found the send window full
+	SrvBlockedTO        int // ... and were ended by the write deadline
+	SrvBlockedUnderLock int // writes that would block for ever, issued while Conn.locker was held
 }
 
 type driver struct {
@@ -227,6 +228,14 @@ func (d *driver) run(offer func(net.Conn) bool) {
 	h.Offered = offer(nil)
 	if !h.Offered {
 		d.raw.Close()
+		return
+	}
+	if d.sc.Silent {
+		for d.readSome(d.sc.IdleEnd) == nil {
+		}
+		if !d.sc.NoClose {
+			d.cur.Close()
+		}
 		return
 	}
 	if d.implicit {
